@@ -144,8 +144,9 @@ theorem success_means_pair_installed (cfg : Cfg) (w : World)
 
 /-- **Bounded.** If every order the CA serves lists at most `A` authorisations and every
 authorisation offers at most `c` challenges, one attempt makes at most
-`10 + 2·P + A·(1 + c + P)` logical exchanges, `P = DEFAULT_POOL_NB_TRIES` (= `50 + A·(21 + c)`):
-directory 1, account ≤ 4, newOrder ≤ 3, per authorisation 1 + c + P, order polls 2·P, finalize 1,
+`11 + 2·P + A·(1 + c + P)` logical exchanges, `P = DEFAULT_POOL_NB_TRIES` (= `51 + A·(21 + c)`):
+directory 1, account ≤ 5 (since 1fb1c1a a key roll-over is preceded by a check of the account),
+newOrder ≤ 3, per authorisation 1 + c + P, order polls 2·P, finalize 1,
 download 1.  With `Model/Http`'s bound on transmissions per exchange and the waits of `Gen/Consts`
 this bounds the time of an attempt in which every request is answered or cut. -/
 theorem attempt_bounded (v : Variant) (cfg : Cfg) (w : World) (A c : Nat)
@@ -156,7 +157,7 @@ theorem attempt_bounded (v : Variant) (cfg : Cfg) (w : World) (A c : Nat)
   rw [he]
   simpa using hc
 
-theorem attemptBound_value (A c : Nat) : attemptBound A c = 50 + A * (21 + c) := by
+theorem attemptBound_value (A c : Nat) : attemptBound A c = 51 + A * (21 + c) := by
   unfold attemptBound
   have : (1 + c + Gen.DEFAULT_POOL_NB_TRIES) = 21 + c := by
     simp [Gen.DEFAULT_POOL_NB_TRIES]; omega
